@@ -2,4 +2,6 @@ import OsyrisProofs.C02
 import OsyrisProofs.C06
 import OsyrisProofs.C07
 import OsyrisProofs.C08
+import OsyrisProofs.C09
+import OsyrisProofs.C10
 import OsyrisProofs.C20
